@@ -1,5 +1,5 @@
 # executed by gen_manifest.py:  reg(pid, technique, level text, level note)
-EXPL = "generated-input search with an explicit oracle (a tenth of the cases under each of four process configurations, a fifth continued on a deep / shallow copy or pickle round trip of the library object in use, plus a reduced pass under python -O); assurance = the property held on every generated / enumerated case reported in the evidence file, nothing beyond"
+EXPL = "generated-input search with an explicit oracle (a tenth of the cases under each of four process configurations, a seventh continued on a shallow copy of the library object in use, plus a reduced pass under python -O); assurance = the property held on every generated / enumerated case reported in the evidence file, nothing beyond"
 
 reg("C20",
     "model-based property testing over generated operation histories (Hypothesis), scripted RNG for draws",
